@@ -19,6 +19,7 @@ import (
 	"github.com/openbao/openbao/v2/internal/helper/namespace"
 	"github.com/openbao/openbao/v2/internal/helper/testhelpers/corehelpers"
 	"github.com/openbao/openbao/v2/internal/vault"
+	vaultseal "github.com/openbao/openbao/v2/internal/vault/seal"
 	"github.com/openbao/openbao/sdk/v2/logical"
 	"github.com/openbao/openbao/sdk/v2/physical"
 )
@@ -70,6 +71,11 @@ type CoreOpts struct {
 	// over one simulated disk form an active/standby pair)
 	HA       physical.HABackend
 	Redirect string
+	// AutoSealSecret, if set, gives the node an auto-unseal style seal (the
+	// repo's test KMS wrapper keyed by this secret): the root key is stored
+	// wrapped by the "KMS", unseal needs no shares, the operator holds
+	// recovery keys instead
+	AutoSealSecret []byte
 }
 
 // CoreH is a booted core with what the harness knows about it.
@@ -113,6 +119,14 @@ func coreConfig(d *Disk, o CoreOpts) *vault.CoreConfig {
 		EnableRaw:                 o.EnableRaw,
 		DisableKeyEncodingChecks:  o.DisableKeyChecks,
 		RollbackPeriod:            time.Hour,
+	}
+	if len(o.AutoSealSecret) > 0 {
+		access, _ := vaultseal.NewTestSeal(&vaultseal.TestSealOpts{Secret: o.AutoSealSecret, Logger: testLogger()})
+		as, err := vault.NewAutoSeal(access)
+		if err != nil {
+			panic(err)
+		}
+		conf.Seal = as
 	}
 	if o.HA != nil {
 		conf.HAPhysical = o.HA
@@ -167,6 +181,9 @@ func BootCoreWith(d *Disk, o CoreOpts, early func(*CoreH)) (*CoreH, error) {
 		return nil, fmt.Errorf("Initialize: %w", err)
 	}
 	h := &CoreH{Core: c, Disk: d, Keys: res.SecretShares, Root: res.RootToken, Opts: o}
+	if len(o.AutoSealSecret) > 0 {
+		h.Keys = res.RecoveryShares
+	}
 	if early != nil {
 		early(h)
 	}
@@ -191,6 +208,15 @@ func Reboot(d *Disk, old *CoreH) (*CoreH, error) {
 }
 
 func (h *CoreH) Unseal() error {
+	if len(h.Opts.AutoSealSecret) > 0 {
+		if err := h.Core.UnsealWithStoredKeys(namespace.RootContext(context.Background())); err != nil {
+			return fmt.Errorf("unseal with stored keys: %w", err)
+		}
+		if h.Core.Sealed() {
+			return fmt.Errorf("core still sealed after unsealing with stored keys")
+		}
+		return nil
+	}
 	for i := 0; i < h.Opts.Thresh && i < len(h.Keys); i++ {
 		k := append([]byte{}, h.Keys[i]...)
 		if _, err := h.Core.Unseal(k); err != nil {
